@@ -93,6 +93,8 @@ func main() {
 					}
 					if !eq(cat, orig) {
 						e.Fail("Chunk|concatenation", rp, "Chunk(n=%d,size=%d): concatenation %v != input", n, size, cat)
+					} else if n <= 40 {
+						e.Keep("Chunk", chunks, rp)
 					}
 				}
 			}
@@ -111,6 +113,8 @@ func main() {
 				e.Fail("Windowed|panic", rp, "Windowed(n=%d,size=%d) panicked: %s", n, size, m)
 			} else if w := refWindows(orig, size); !same(wins, w) {
 				e.Fail("Windowed|sequence", rp, "Windowed(n=%d,size=%d) = %v, want %v", n, size, wins, w)
+			} else if n <= 40 {
+				e.Keep("Windowed", wins, rp)
 			}
 			var wf [][]int
 			e.Call()
@@ -133,6 +137,8 @@ func main() {
 		got := slices.Pairs(s)
 		if len(got) != len(want) || (len(want) > 0 && !reflect.DeepEqual(got, want)) {
 			e.Fail("Pairs|sequence", rp, "Pairs(n=%d) = %v, want %v", n, got, want)
+		} else if n <= 40 {
+			e.Keep("Pairs", got, rp)
 		}
 		var pf [][2]int
 		e.Call()
